@@ -12,15 +12,15 @@ UNIT = dict(
         "Chaos::call@Service": dict(rules=[
             ("R4",), ("R3",),
             ("inject", None, "start", "broadcast use chaos_float_axioms;"),
-            ("sub", "R8-lock", r"rng\.lock\(\)\.unwrap\(\)", "vx_lock(&rng)", 1),
+            ("sub", "R8-lock", r"\brng\.lock\(\)\.unwrap\(\)", "vx_lock(&rng)", 1),
             ("sub", "R14-float", r"let mut error_roll: f64 = 1\.0;", "let mut error_roll: f64 = vx_one();", 1),
             ("sub", "R14-float", r"config\.error_injector\.error_rate\(\) > 0\.0", "vx_f64_positive(config.error_injector.error_rate())", 1),
             ("sub", "R14-float", r"config\.latency_rate > 0\.0", "vx_f64_positive(config.latency_rate)", 1),
             ("sub", "R14-float", r"error_roll >= config\.error_injector\.error_rate\(\)", "vx_f64_ge(error_roll, config.error_injector.error_rate())", 1),
             ("sub", "R14-float", r"latency_roll < config\.latency_rate", "vx_f64_lt(latency_roll, config.latency_rate)", 1),
-            ("sub", "R14-rng", r"error_roll = rng\.random\(\);", "error_roll = rng.vx_random(Tracked(tr));", 1),
-            ("sub", "R14-rng", r"let latency_roll: f64 = rng\.random\(\);", "let latency_roll: f64 = rng.vx_random(Tracked(tr));", 1),
-            ("sub", "R14-rng", r"rng\.random_range\(min_ms\.\.=max_ms\)", "rng.vx_random_range(min_ms, max_ms, Tracked(tr))", 1),
+            ("sub", "R14-rng", r"error_roll = (\w+)\.random\(\);", r"error_roll = \1.vx_random(Tracked(tr));", 1),
+            ("sub", "R14-rng", r"let latency_roll: f64 = (\w+)\.random\(\);", r"let latency_roll: f64 = \1.vx_random(Tracked(tr));", 1),
+            ("sub", "R14-rng", r"(\w+)\.random_range\(min_ms\.\.=max_ms\)", r"\1.vx_random_range(min_ms, max_ms, Tracked(tr))", 1),
             ("sub", "R9-paths", r"tokio::time::sleep", "sleep", 1),
             ("addarg", ["call"], TR, 1),
         ]),
